@@ -298,15 +298,13 @@ class SpectralDensity(DFunction, UnitsManaged):
                      omega0**2)**2 + (gamma*omega)**2)
 
         if values is not None:
-            self._make_me(self.axis, values)
+            self._add_me(self.axis, values)
         else:
-            self._make_me(self.axis, cfce)
+            self._add_me(self.axis, cfce)
 
         # this is in internal units
-        self.lamb = lamb            
-        self.lim_omega = numpy.zeros(2)
-        self.lim_omega[0] = 0.0
-        self.lim_omega[1] = 4*(gamma*(omega0**2))/((omega0**2)**2)
+        self.lamb += lamb
+        self.lim_omega[1] += 4*(gamma*(omega0**2))/((omega0**2)**2)
         
     # See Renger, Journal of Chemical Physics 2002
     # See Jang, Newton, Silbey, J Chem Phys. 2007 for alternate form
@@ -364,14 +362,11 @@ class SpectralDensity(DFunction, UnitsManaged):
             #cfce = cfce * 3.19
 
         if values is not None:
-            self._make_me(self.axis, values)
+            self._add_me(self.axis, values)
         else:
-            self._make_me(self.axis, cfce)
+            self._add_me(self.axis, cfce)
 
-        self.lamb = params["reorg"]            
-        self.lim_omega = numpy.zeros(2)
-        self.lim_omega[0] = 0.0
-        self.lim_omega[1] = 0.0
+        self.lamb += params["reorg"]
         
     def _make_CP29_spectral_density(self, params, values = None):
     #This pectral density is based on the one calculated from FLN by 
@@ -411,20 +406,18 @@ class SpectralDensity(DFunction, UnitsManaged):
             cfce[numpy.isclose(omega, 0, atol=1e-05)] = 0
             
         if values is not None:
-            self._make_me(self.axis, values)
+            self._add_me(self.axis, values)
             print('spectral density made from correlation function values')
 
         else:
-            self._make_me(self.axis, cfce)
+            # normalize the shape to the requested reorganization energy
             with energy_units("int"):
-                meareorg = self.measure_reorganization_energy()
+                shape = SpectralDensity(self.axis, [], values=cfce)
+                meareorg = shape.measure_reorganization_energy()
             cfce = (lamb/meareorg)*cfce
-            self._make_me(self.axis, cfce)
+            self._add_me(self.axis, cfce)
 
-        self.lamb = lamb     
-        self.lim_omega = numpy.zeros(2)
-        self.lim_omega[0] = 0.0
-        self.lim_omega[1] = 0.0
+        self.lamb += lamb
             
     def _make_value_defined(self, values=None):
         """ Value defined spectral density
